@@ -118,4 +118,119 @@ theorem round_core (N D : Nat) (hD : 0 < D) (hN : 2 ^ 23 * D ≤ N) :
     rw [this]
     nlinarith
 
+theorem roundAt_spec (num den : Nat) (hd : 0 < den) (e : Int) (r : Nat × Nat) (h : roundAt num den e = some r) :
+    0 < r.2 ∧ |qval r - (num : ℚ) / den| * 2 ^ 24 ≤ (num : ℚ) / den := by
+  have hdq : (0 : ℚ) < den := by exact_mod_cast hd
+  unfold roundAt at h
+  by_cases he : e ≥ 0
+  · simp only [he, if_true] at h
+    split at h
+    · rename_i hc
+      injection h with h
+      subst h
+      have hD : 0 < den * 2 ^ e.toNat := by positivity
+      have core := round_core num (den * 2 ^ e.toNat) hD hc.1
+      generalize (if 2 * (num % (den * 2 ^ e.toNat)) > den * 2 ^ e.toNat ∨
+        2 * (num % (den * 2 ^ e.toNat)) = den * 2 ^ e.toNat ∧ num / (den * 2 ^ e.toNat) % 2 = 1
+        then num / (den * 2 ^ e.toNat) + 1 else num / (den * 2 ^ e.toNat)) = m at *
+      refine ⟨Nat.one_pos, ?_⟩
+      simp only [qval]
+      push_cast at core ⊢
+      have hp : (0 : ℚ) < 2 ^ e.toNat := by positivity
+      have e1 : (num : ℚ) / den = (num : ℚ) / (den * 2 ^ e.toNat) * 2 ^ e.toNat := by field_simp
+      have e2 : (m : ℚ) * 2 ^ e.toNat / 1 - (num : ℚ) / den
+          = ((m : ℚ) - (num : ℚ) / (den * 2 ^ e.toNat)) * 2 ^ e.toNat := by rw [e1]; ring
+      rw [e2, abs_mul, abs_of_pos hp, e1]
+      nlinarith
+    · cases h
+  · simp only [he, if_false] at h
+    split at h
+    · rename_i hc
+      injection h with h
+      subst h
+      have core := round_core (num * 2 ^ (-e).toNat) den hd hc.1
+      generalize (if 2 * (num * 2 ^ (-e).toNat % den) > den ∨
+        2 * (num * 2 ^ (-e).toNat % den) = den ∧ num * 2 ^ (-e).toNat / den % 2 = 1
+        then num * 2 ^ (-e).toNat / den + 1 else num * 2 ^ (-e).toNat / den) = m at *
+      refine ⟨by positivity, ?_⟩
+      simp only [qval]
+      push_cast at core ⊢
+      have hp : (0 : ℚ) < 2 ^ (-e).toNat := by positivity
+      have e1 : (num : ℚ) / den = (num : ℚ) * 2 ^ (-e).toNat / den / 2 ^ (-e).toNat := by field_simp
+      have e2 : (m : ℚ) / 2 ^ (-e).toNat - (num : ℚ) / den
+          = ((m : ℚ) - (num : ℚ) * 2 ^ (-e).toNat / den) / 2 ^ (-e).toNat := by rw [e1]; ring
+      rw [e2, abs_div, abs_of_pos hp, e1, div_mul_eq_mul_div, div_le_div_iff_of_pos_right hp]
+      exact core
+    · cases h
+
+/-- binary32 rounding has relative error at most 2^-24 (for the definition as it is executed) -/
+theorem roundF32_spec (num den : Nat) (hd : 0 < den) :
+    0 < (roundF32 num den).2 ∧ |qval (roundF32 num den) - (num : ℚ) / den| * 2 ^ 24 ≤ (num : ℚ) / den := by
+  have hx : (0 : ℚ) ≤ (num : ℚ) / den := by positivity
+  have exact : 0 < ((num, den) : Nat × Nat).2 ∧ |qval (num, den) - (num : ℚ) / den| * 2 ^ 24 ≤ (num : ℚ) / den := by
+    refine ⟨hd, ?_⟩
+    simp only [qval, sub_self, abs_zero, zero_mul]; exact hx
+  unfold roundF32
+  split
+  · exact exact
+  · simp only
+    split
+    · rename_i r h; exact roundAt_spec num den hd _ r h
+    · split
+      · rename_i r h; exact roundAt_spec num den hd _ r h
+      · exact exact
+
+/-- the float32 product `fl(S · fl(p/q))`: relative error at most 2^-23 + 2^-48 -/
+theorem mulF32_spec (S p q : Nat) (hq : 0 < q) :
+    0 < (mulF32 S p q).2 ∧
+      |qval (mulF32 S p q) - (S : ℚ) * p / q| * 2 ^ 48 ≤ (S : ℚ) * p / q * (2 ^ 25 + 1) := by
+  obtain ⟨hb, h1⟩ := roundF32_spec p q hq
+  unfold mulF32
+  simp only
+  obtain ⟨hb2, h2⟩ := roundF32_spec (S * (roundF32 p q).1) (roundF32 p q).2 hb
+  refine ⟨hb2, ?_⟩
+  generalize qval (roundF32 (S * (roundF32 p q).1) (roundF32 p q).2) = z at *
+  have hS : (0 : ℚ) ≤ S := by positivity
+  have hu : ((S * (roundF32 p q).1 : Nat) : ℚ) / (roundF32 p q).2 = (S : ℚ) * qval (roundF32 p q) := by
+    simp only [qval]; push_cast; ring
+  rw [hu] at h2
+  generalize qval (roundF32 p q) = y at *
+  have hv : (S : ℚ) * p / q = (S : ℚ) * ((p : ℚ) / q) := by ring
+  rw [hv]
+  generalize (p : ℚ) / q = x at *
+  have a1 := abs_le.mp ((le_div_iff₀ (by positivity : (0 : ℚ) < 2 ^ 24)).mpr h1)
+  have a2 := abs_le.mp ((le_div_iff₀ (by positivity : (0 : ℚ) < 2 ^ 24)).mpr h2)
+  have m1 : (S : ℚ) * (y - x) ≤ S * (x / 2 ^ 24) := mul_le_mul_of_nonneg_left a1.2 hS
+  have m2 : (S : ℚ) * (-(x / 2 ^ 24)) ≤ S * (y - x) := mul_le_mul_of_nonneg_left a1.1 hS
+  generalize hu' : (S : ℚ) * y = u at *
+  generalize hv' : (S : ℚ) * x = v at *
+  have m1' : u - v ≤ v / 2 ^ 24 := by
+    have : (S : ℚ) * (y - x) = u - v := by rw [← hu', ← hv']; ring
+    have e : (S : ℚ) * (x / 2 ^ 24) = v / 2 ^ 24 := by rw [← hv']; ring
+    linarith
+  have m2' : -(v / 2 ^ 24) ≤ u - v := by
+    have : (S : ℚ) * (y - x) = u - v := by rw [← hu', ← hv']; ring
+    have e : (S : ℚ) * (-(x / 2 ^ 24)) = -(v / 2 ^ 24) := by rw [← hv']; ring
+    linarith
+  have hle : |z - v| ≤ v * (2 ^ 25 + 1) / 2 ^ 48 := by
+    rw [abs_le]
+    constructor
+    · have := a2.1; have : -(u / 2 ^ 24) ≤ z - u := by linarith
+      have hh : u ≤ v + v / 2 ^ 24 := by linarith
+      have : -(v * (2 ^ 25 + 1) / 2 ^ 48) = -((v + v / 2 ^ 24) / 2 ^ 24) - v / 2 ^ 24 := by ring
+      rw [this]
+      have : (u / 2 ^ 24 : ℚ) ≤ (v + v / 2 ^ 24) / 2 ^ 24 := by
+        apply div_le_div_of_nonneg_right hh (by positivity)
+      linarith
+    · have := a2.2
+      have hh : u ≤ v + v / 2 ^ 24 := by linarith
+      have : v * (2 ^ 25 + 1) / 2 ^ 48 = (v + v / 2 ^ 24) / 2 ^ 24 + v / 2 ^ 24 := by ring
+      rw [this]
+      have : (u / 2 ^ 24 : ℚ) ≤ (v + v / 2 ^ 24) / 2 ^ 24 := by
+        apply div_le_div_of_nonneg_right hh (by positivity)
+      linarith
+  calc |z - v| * 2 ^ 48 ≤ v * (2 ^ 25 + 1) / 2 ^ 48 * 2 ^ 48 := by
+        apply mul_le_mul_of_nonneg_right hle (by positivity)
+    _ = v * (2 ^ 25 + 1) := by rw [div_mul_cancel₀ _ (by positivity)]
+
 end DirectVerif.C11
